@@ -125,7 +125,7 @@ def main():
         res["front"] = front
         for cfg in job["configs"]:
             venom, level = cfg[0], cfg[1]
-            evm = cfg[2] if len(cfg) > 2 else None
+            evm = cfg[2] if len(cfg) > 2 else it.get("evm")      # per-configuration target, else the item's own
             res["runs"][f"{'venom' if venom else 'legacy'}-{level}" + (f"-{evm}" if evm else "")] = \
                 classify(it.get("src"), venom, level, limit, files=files, evm=evm)
             if res["front"]["outcome"] != "output":
